@@ -44,7 +44,8 @@ def oracle(p):
 
 
 def finding_of(v):
-    return {ACK_RULE: 'F-C19-1', CONT_RULE: 'F-C19-2'}.get(v['rule'])
+    # ACK_RULE was repaired in /repo (fixed: entry in known_findings.txt): it is reported again if it returns
+    return {CONT_RULE: 'F-C19-2'}.get(v['rule'])
 
 
 def scenarios(run):
